@@ -201,13 +201,22 @@ func c02MkWorld(t *testing.T) *c02World {
 
 // one case: the initiator writes `wlens`, the responder reads with `blens`
 // (cyclic) until EOF / errors.  writerIsInit chooses the direction.
+// after a few failed handshakes the point is made: further cases are skipped so
+// that a broken tree does not cost one deadline per case
+var c02HandshakeFailures int
+
 func (w *c02World) run(out *verifh.Out, wlens []int, blens []int, e c02Edit, short []int, writerIsInit bool) {
+	if c02HandshakeFailures >= 5 {
+		out.Cover("noise.cases_skipped_after_handshake_failures")
+		return
+	}
 	// writer <-> a1 | a2 <-> proxy <-> b1 | b2 <-> reader
 	a1, a2 := net.Pipe()
 	b1, b2 := net.Pipe()
 	dl := time.Now().Add(20 * time.Second)
+	hdl := time.Now().Add(5 * time.Second) // the handshake is three small messages
 	for _, c := range []net.Conn{a1, a2, b1, b2} {
-		c.SetDeadline(dl)
+		c.SetDeadline(hdl)
 	}
 	var wg sync.WaitGroup
 	wg.Add(2)
@@ -244,7 +253,11 @@ func (w *c02World) run(out *verifh.Out, wlens []int, blens []int, e c02Edit, sho
 		}
 	}()
 	hs.Wait()
+	for _, c := range []net.Conn{a1, a2, b1, b2} {
+		c.SetDeadline(dl)
+	}
 	if werr != nil || rerr != nil {
+		c02HandshakeFailures++
 		// the proxy never touches the handshake messages and short reads are legal: a handshake
 		// that fails here means the written bytes are never delivered.  Recorded as a case whose
 		// first Read fails.
